@@ -4,6 +4,8 @@
 #include "vf.hpp"
 #include "ref.hpp"
 #include <glm/glm.hpp>
+#include <glm/gtc/packing.hpp>
+#include <glm/gtc/type_precision.hpp>
 #include <glm/gtc/integer.hpp>
 #include <glm/gtc/bitfield.hpp>
 #include <glm/gtc/round.hpp>
@@ -131,6 +133,20 @@ VF_OP(qualifier_conv_f32, In4<float>, "ffff"){ k_qconv<float>(in,c); }
 VF_OP(qualifier_conv_f64, In4<double>, "dddd"){ k_qconv<double>(in,c); }
 VF_OP(qualifier_conv_i32, In4<i32>, "iiii"){ k_qconv<i32>(in,c); }
 VF_OP(qualifier_conv_u32, In4<u32>, "uuuu"){ k_qconv<u32>(in,c); }
+// vector arguments that live at the weakest address their type allows (element 1 of a byte/short/int buffer): the pack/unpack helpers take
+// them by reference and may not assume the alignment of the packed word
+template<class V> static V* place_min_aligned(unsigned char* buf){ size_t al=alignof(V); unsigned char* p=buf; while(((uintptr_t)p % 64)!=0) p++; p+=al; /* aligned to alignof(V), misaligned for anything coarser */ return new (p) V; }
+VF_OP(pack_from_min_aligned_objects, In4<i32>, "iiii"){
+	alignas(64) unsigned char raw[8][192];
+	auto* a=place_min_aligned<glm::i16vec4>(raw[0]); auto* b=place_min_aligned<glm::u16vec4>(raw[1]); auto* d=place_min_aligned<glm::i8vec4>(raw[2]); auto* e=place_min_aligned<glm::i32vec2>(raw[3]); auto* f=place_min_aligned<glm::u32vec2>(raw[4]); auto* g=place_min_aligned<glm::i16vec2>(raw[5]); auto* h=place_min_aligned<glm::u8vec2>(raw[6]); auto* v=place_min_aligned<glm::vec<4,float,glm::packed_highp> >(raw[7]);
+	for(int i=0;i<4;i++){ (*a)[i]=(glm::int16)in.v[i]; (*b)[i]=(glm::uint16)in.v[i]; (*d)[i]=(glm::int8)in.v[i]; (*v)[i]=(float)(in.v[i]%1000)*0.001f; } for(int i=0;i<2;i++){ (*e)[i]=in.v[i]; (*f)[i]=(glm::uint32)in.v[i+2]; (*g)[i]=(glm::int16)in.v[i+1]; (*h)[i]=(glm::uint8)in.v[i]; }
+	glm::int64 pa=glm::packInt4x16(*a); glm::uint64 pb=glm::packUint4x16(*b); glm::int32 pd=glm::packInt4x8(*d); glm::int64 pe=glm::packInt2x32(*e); glm::uint64 pf=glm::packUint2x32(*f); int pg=glm::packInt2x16(*g); glm::uint16 ph=glm::packUint2x8(*h);
+	if(glm::unpackInt4x16(pa)!=*a) c.fail("packInt4x16(min-aligned):round-trip-changed",(i32)glm::unpackInt4x16(pa)[1],(i32)(*a)[1]); if(glm::unpackUint4x16(pb)!=*b) c.fail("packUint4x16(min-aligned):round-trip-changed",(i32)glm::unpackUint4x16(pb)[1],(i32)(*b)[1]);
+	if(glm::unpackInt4x8(pd)!=*d) c.fail("packInt4x8(min-aligned):round-trip-changed",(i32)glm::unpackInt4x8(pd)[1],(i32)(*d)[1]); if(glm::unpackInt2x32(pe)!=*e) c.fail("packInt2x32(min-aligned):round-trip-changed",glm::unpackInt2x32(pe)[1],(*e)[1]);
+	if(glm::unpackUint2x32(pf)!=*f) c.fail("packUint2x32(min-aligned):round-trip-changed",(i32)glm::unpackUint2x32(pf)[1],(i32)(*f)[1]); if(glm::unpackInt2x16(pg)!=*g) c.fail("packInt2x16(min-aligned):round-trip-changed",(i32)glm::unpackInt2x16(pg)[1],(i32)(*g)[1]); if(glm::unpackUint2x8(ph)!=*h) c.fail("packUint2x8(min-aligned):round-trip-changed",(i32)glm::unpackUint2x8(ph)[1],(i32)(*h)[1]);
+	glm::uint64 h4=glm::packHalf4x16(*v); glm::uint64 u4=glm::packUnorm4x16(*v); glm::uint32 s4=glm::packSnorm4x8(*v); glm::uint32 f3=glm::packF2x11_1x10(glm::vec3(*v)); (void)h4; (void)u4; (void)s4; (void)f3;
+	double dd=glm::packDouble2x32(*f); glm::uvec2 du=glm::unpackDouble2x32(dd); if(du!=glm::uvec2(*f)) c.fail("packDouble2x32(min-aligned):round-trip-changed",(i32)du[1],(i32)(*f)[1]);
+}
 VF_OP(pointer_builders_f32, In4<float>, "ffff"){ k_ptr<float>(in,c); }
 VF_OP(pointer_builders_f64, In4<double>, "dddd"){ k_ptr<double>(in,c); }
 VF_OP(pointer_builders_i32, In4<i32>, "iiii"){ k_ptr<i32>(in,c); }
@@ -160,7 +176,7 @@ static void workload(){
 		}
 		{ InC<i32> a; InC<u32> b; InC<i64> e; InC<u64> g; for(int k=0;k<4;k++){ a.v[k]=rint_<i32>(c.rng,L32); b.v[k]=rint_<u32>(c.rng,LU32); e.v[k]=rint_<i64>(c.rng,L64); g.v[k]=rint_<u64>(c.rng,LU64); }
 			a.a=(int)(i%33); a.b=(int)c.rng.below(33-a.a); b.a=a.a; b.b=a.b; e.a=(int)(i%65); e.b=(int)c.rng.below(65-e.a); g.a=e.a; g.b=e.b; vf::run(c,counts_i32,a); vf::run(c,counts_u32,b); vf::run(c,counts_i64,e); vf::run(c,counts_u64,g); }
-		{ In4<float> pf; In4<double> pd; In4<i32> pi; for(int k=0;k<4;k++){ pf.v[k]=(float)(c.rng.range(-1000,1000)*0.25); pd.v[k]=c.rng.range(-1000,1000)*0.125; pi.v[k]=rint_<i32>(c.rng,L32); } vf::run(c,pointer_builders_f32,pf); vf::run(c,pointer_builders_f64,pd); vf::run(c,pointer_builders_i32,pi);  vf::run(c,qualifier_conv_f32,pf); vf::run(c,qualifier_conv_f64,pd); vf::run(c,qualifier_conv_i32,pi); { In4<u32> pu; for(int k=0;k<4;k++) pu.v[k]=(u32)c.rng.next(); vf::run(c,qualifier_conv_u32,pu); } }
+		{ In4<float> pf; In4<double> pd; In4<i32> pi; for(int k=0;k<4;k++){ pf.v[k]=(float)(c.rng.range(-1000,1000)*0.25); pd.v[k]=c.rng.range(-1000,1000)*0.125; pi.v[k]=rint_<i32>(c.rng,L32); } vf::run(c,pointer_builders_f32,pf); vf::run(c,pointer_builders_f64,pd); vf::run(c,pointer_builders_i32,pi); vf::run(c,pack_from_min_aligned_objects,pi);  vf::run(c,qualifier_conv_f32,pf); vf::run(c,qualifier_conv_f64,pd); vf::run(c,qualifier_conv_i32,pi); { In4<u32> pu; for(int k=0;k<4;k++) pu.v[k]=(u32)c.rng.next(); vf::run(c,qualifier_conv_u32,pu); } }
 		{ In4<i32> a; In4<u32> b; In4<i64> e; In4<i16> h; for(int k=0;k<4;k++){ a.v[k]=rint_<i32>(c.rng,L32); b.v[k]=rint_<u32>(c.rng,LU32); e.v[k]=rint_<i64>(c.rng,L64); h.v[k]=rint_<i16>(c.rng,L16); }
 			for(int k=2;k<4;k++){ if(a.v[k]==0) a.v[k]=3; if(b.v[k]==0) b.v[k]=5; if(e.v[k]==0) e.v[k]=-7; if(h.v[k]==0) h.v[k]=9; } for(int k=0;k<2;k++){ if(a.v[k]==std::numeric_limits<i32>::min()) a.v[k]++; if(e.v[k]==std::numeric_limits<i64>::min()) e.v[k]++; if(h.v[k]==std::numeric_limits<i16>::min()) h.v[k]++; }
 			vf::run(c,div_i32,a); vf::run(c,div_u32,b); vf::run(c,div_i64,e); vf::run(c,div_i16,h); }
